@@ -675,7 +675,8 @@ class Pass:
             ref = y if (fa is None or fa[0] == "mismatch") else None
             vt = "+".join(f"{show(s)}<-{type(getattr(x, n)).__name__}" for n, s, f in fields if f != "trans")
             if zerr is not None:
-                self.fail(f"compact:de-raises:{type(zerr).__name__}:{vt}", f"deserialize_compact raised {zerr!r:.200} on a payload serialize_compact produced, class ({label}) instance {x!r:.200}", case)
+                vs = "+".join(sorted({show(s[1] if head(s) == "opt" else s) for _, s, f in fields if f != "trans"}))
+                self.fail(f"compact:de-raises:{type(zerr).__name__}:{vs}", f"deserialize_compact raised {zerr!r:.200} on a payload serialize_compact produced, class ({label}) instance {x!r:.200}", case)
                 outcome = "compact-raise"
             elif ref is None:
                 # compact accepted an instance the Arrow encoding rejects: nothing to compare against
